@@ -3,6 +3,7 @@
 set -u
 export GOFLAGS=-mod=mod GOPROXY=off GOSUMDB=off GOTOOLCHAIN=local
 id=$1; patch=$2; tier=${3:-quick}
+exec 8>/var/tmp/repo.lock; flock 8   # never while a background run is building
 cd /repo || exit 2
 if [ -n "$(git status --porcelain)" ]; then echo "repo dirty"; exit 2; fi
 git apply "$patch" 2>/dev/null || patch -p1 --fuzz=3 -s < "$patch" || { echo "patch does not apply"; git checkout -- .; git clean -fdq; exit 2; }
